@@ -481,7 +481,9 @@ fn gen11(seed: u64) -> WorldCase {
                 if let Some(b) = my_binds.get(r.usize(my_binds.len().max(1))) {
                     let (c, names) = &st.ctxs[r.usize(st.ctxs.len())];
                     if !names.is_empty() {
-                        let name = r.pick(names).clone();
+                        // now and then the name of a program this context does not hold: the
+                        // exec fails as unbound and must leave nothing behind
+                        let name = if r.chance(1, 12) { r.pick(&["ghost", "p4", "x0"]).to_string() } else { r.pick(names).clone() };
                         let times = match r.weighted(&[6, 3, 1]) {
                             0 => 1,
                             1 => 2,
